@@ -67,6 +67,9 @@ TraceNext ==
 
 TraceSpec == TraceInit /\ [][TraceNext]_tvars
 
+\* debugging aid (not used by the check): print the transcription's prediction along a trace
+DebugPrint == PrintT(<<"DBG", tid, l - 1, last.op, last.hits, last.ret[1], last.ret = last.exp, ImplTracksLogical>>)
+
 AllAccepted ==
     LET bad == {t \in 1 .. Len(Traces) : TLCGet(t) # Len(Traces[t].ev) + 1}
     IN  PrintT(<<"REJECTED", {<<t, TLCGet(t)>> : t \in bad}>>) /\ bad = {}
